@@ -504,6 +504,253 @@ Example C05_getdate_fixed :
   getdate F64 true 20000229%float [0; 0; 0] = Ret 0 [2000; 2; 29].
 Proof. exact getdate_fixed_rejects. Qed.
 
+(* ------------------------------------------------------------------ *)
+(* Allocation contracts of the Python call sites (Gen/ConstsC05.v, PY_KERNEL_CALLS): the
+   buffer lengths assumed by the theorems above (`Zlen idxcells = nrows * ncols`, `Zlen weights
+   = nval`, ...) are established either by a relation the Cython wrapper asserts (the
+   `pyx_contract` examples) or ONLY by the expression with which the Python function allocates
+   the buffer - c_intersect's idxcells / weights (the wrapper merely checks that the two have
+   the same length and the kernel ignores its ncells argument) and c_crps's weights.  Each
+   example states, for one call site, the allocation (dtype arguments left out) of every
+   buffer the function creates, followed by the definitions of the local names it uses, as
+   re-extracted from the tree under test; `C05_py_call_sites` states that there is no other
+   call of a compiled wrapper in the data, stat and gis packages.  An allocation that is
+   edited, a new call site or a removed one breaks these examples: the hypotheses of the
+   theorems then have to be re-established against the new expression. *)
+Open Scope string_scope.
+Example C05_py_call_sites : py_call_sites = [
+  ("data", "aggregate", "aggregate");
+  ("data", "flathomogen", "flathomogen");
+  ("data", "var2h", "var2h");
+  ("data", "islinear", "islin");
+  ("data", "eckhardt", "eckhardt");
+  ("stat", "armodel_sim", "armodel_sim");
+  ("stat", "armodel_residual", "armodel_residual");
+  ("stat", "crps", "crps");
+  ("stat", "anderson_darling_test", "ad_test");
+  ("stat", "dscore", "ensrank");
+  ("stat", "pareto_front", "pareto_front");
+  ("gis", "Grid.coord2cell", "coord2cell");
+  ("gis", "Grid.cell2coord", "cell2coord");
+  ("gis", "Grid.cell2rowcol", "cell2rowcol");
+  ("gis", "Grid.neighbours", "neighbours");
+  ("gis", "Grid.slice", "slice");
+  ("gis", "Catchment.upstream", "upstream");
+  ("gis", "Catchment.downstream", "downstream");
+  ("gis", "Catchment.delineate_area", "delineate_area");
+  ("gis", "Catchment.delineate_boundary", "delineate_boundary");
+  ("gis", "Catchment.delineate_boundary", "exclude_zero_area_boundary");
+  ("gis", "Catchment.compute_flowpathlengths", "delineate_flowpathlengths_in_catchment");
+  ("gis", "Catchment.intersect", "intersect");
+  ("gis", "delineate_river", "delineate_river");
+  ("gis", "accumulate", "accumulate");
+  ("gis", "voronoi", "voronoi");
+  ("gis", "slope", "slope");
+  ("gis", "points_inside_polygon", "points_inside_polygon")
+].
+Proof. vm_compute. reflexivity. Qed.
+
+Example C05_py_alloc_data_aggregate :
+  py_allocs "data" "aggregate" "aggregate" = [[
+   ("outputs",
+    "outputs:=0.0*inputs ; inputs:=inputs")]].
+Proof. vm_compute. reflexivity. Qed.
+
+Example C05_py_alloc_data_flathomogen :
+  py_allocs "data" "flathomogen" "flathomogen" = [[
+   ("outputs",
+    "outputs:=0.0*inputs ; inputs:=inputs")]].
+Proof. vm_compute. reflexivity. Qed.
+
+Example C05_py_alloc_data_var2h :
+  py_allocs "data" "var2h" "var2h" = [[
+   ("hvalues",
+    "hvalues:=np.nan*np.ones(nvalh) ; nvalh:=np.int32((wall[-1]-wall[0]).total_seconds()/nbsec_per_period) ; nbsec_per_period:=np.int32(nbsec_per_period) ; wall:=se.index.tz_localize(None)")]].
+Proof. vm_compute. reflexivity. Qed.
+
+Example C05_py_alloc_data_islinear_islin :
+  py_allocs "data" "islinear" "islin" = [[
+   ("islin",
+    "islin:=np.zeros(len(data))")]].
+Proof. vm_compute. reflexivity. Qed.
+
+Example C05_py_alloc_data_eckhardt :
+  py_allocs "data" "eckhardt" "eckhardt" = [[
+   ("bflow",
+    "bflow:=np.zeros(len(flow)) ; flow:=np.array(flow)")]].
+Proof. vm_compute. reflexivity. Qed.
+
+Example C05_py_alloc_stat_armodel_sim :
+  py_allocs "stat" "armodel_sim" "armodel_sim" = [[
+   ("outputs",
+    "outputs:=np.zeros_like(innov) ; innov:=np.atleast_1d(innov) ; innov:=np.ascontiguousarray(innov)")]].
+Proof. vm_compute. reflexivity. Qed.
+
+Example C05_py_alloc_stat_armodel_residual :
+  py_allocs "stat" "armodel_residual" "armodel_residual" = [[
+   ("residuals",
+    "residuals:=np.zeros_like(inputs) ; inputs:=np.atleast_1d(inputs) ; inputs:=np.ascontiguousarray(inputs)")]].
+Proof. vm_compute. reflexivity. Qed.
+
+(* c_crps: one weight per forecast kept by __check_ensemble_data (hypothesis `nweights = nval` of
+   C05_crps_safe; not asserted by the wrapper) *)
+Example C05_py_alloc_stat_crps :
+  py_allocs "stat" "crps" "crps" = [[
+   ("weights",
+    "weights:=np.zeros(nforc) ; (obs,ens,nforc,nens):=__check_ensemble_data(obs,ens)");
+   ("table",
+    "table:=np.zeros((nens+1,7)) ; (obs,ens,nforc,nens):=__check_ensemble_data(obs,ens)");
+   ("decompos",
+    "decompos:=np.zeros(5)")]].
+Proof. vm_compute. reflexivity. Qed.
+
+Example C05_py_alloc_stat_anderson_darling_test_ad_test :
+  py_allocs "stat" "anderson_darling_test" "ad_test" = [[
+   ("outputs",
+    "outputs:=np.zeros(2)")]].
+Proof. vm_compute. reflexivity. Qed.
+
+Example C05_py_alloc_stat_dscore_ensrank :
+  py_allocs "stat" "dscore" "ensrank" = [[
+   ("fmat",
+    "fmat:=np.zeros((nval,nval)) ; (nval,nens):=sim.shape ; sim:=np.atleast_2d(sim)");
+   ("franks",
+    "franks:=np.argsort(np.argsort(sim[:,0])) ; sim:=np.atleast_2d(sim) ; franks:=np.zeros(nval) ; (nval,nens):=sim.shape")]].
+Proof. vm_compute. reflexivity. Qed.
+
+Example C05_py_alloc_stat_pareto_front :
+  py_allocs "stat" "pareto_front" "pareto_front" = [[
+   ("isdominated",
+    "isdominated:=np.zeros(data.shape[0]) ; data:=data ; data:=np.ascontiguousarray(data)")]].
+Proof. vm_compute. reflexivity. Qed.
+
+Example C05_py_alloc_gis_Grid_coord2cell :
+  py_allocs "gis" "Grid.coord2cell" "coord2cell" = [[
+   ("idxcell",
+    "idxcell:=np.zeros(len(xycoords)) ; xycoords:=np.ascontiguousarray(np.atleast_2d(xycoords))")]].
+Proof. vm_compute. reflexivity. Qed.
+
+Example C05_py_alloc_gis_Grid_cell2coord :
+  py_allocs "gis" "Grid.cell2coord" "cell2coord" = [[
+   ("xycoords",
+    "xycoords:=np.zeros((len(idxcells),2)) ; idxcells:=np.ascontiguousarray(np.atleast_1d(idxcells))")]].
+Proof. vm_compute. reflexivity. Qed.
+
+Example C05_py_alloc_gis_Grid_cell2rowcol :
+  py_allocs "gis" "Grid.cell2rowcol" "cell2rowcol" = [[
+   ("rowcols",
+    "rowcols:=np.zeros((len(idxcells),2)) ; idxcells:=np.ascontiguousarray(np.atleast_1d(idxcells))")]].
+Proof. vm_compute. reflexivity. Qed.
+
+Example C05_py_alloc_gis_Grid_neighbours :
+  py_allocs "gis" "Grid.neighbours" "neighbours" = [[
+   ("neighbours",
+    "neighbours:=np.zeros(9)")]].
+Proof. vm_compute. reflexivity. Qed.
+
+Example C05_py_alloc_gis_Grid_slice :
+  py_allocs "gis" "Grid.slice" "slice" = [[
+   ("zslice",
+    "zslice:=np.zeros(len(xyslice)) ; xyslice:=np.ascontiguousarray(np.atleast_2d(xyslice))")]].
+Proof. vm_compute. reflexivity. Qed.
+
+Example C05_py_alloc_gis_Catchment_upstream :
+  py_allocs "gis" "Catchment.upstream" "upstream" = [[
+   ("idxup",
+    "idxup:=np.zeros((len(idxdown),9)) ; idxdown:=np.atleast_1d(idxdown)")]].
+Proof. vm_compute. reflexivity. Qed.
+
+Example C05_py_alloc_gis_Catchment_downstream :
+  py_allocs "gis" "Catchment.downstream" "downstream" = [[
+   ("idxdown",
+    "idxdown:=np.zeros(len(idxup)) ; idxup:=np.atleast_1d(idxup)")]].
+Proof. vm_compute. reflexivity. Qed.
+
+Example C05_py_alloc_gis_Catchment_delineate_area :
+  py_allocs "gis" "Catchment.delineate_area" "delineate_area" = [[
+   ("idxinlets",
+    "idxinlets:=-1*np.ones(0) ; idxinlets:=np.atleast_1d(idxinlets)");
+   ("idxcells",
+    "idxcells:=-1*np.ones(nval)");
+   ("buffer1",
+    "buffer1:=-1*np.ones(nval)");
+   ("buffer2",
+    "buffer2:=-1*np.ones(nval)")]].
+Proof. vm_compute. reflexivity. Qed.
+
+Example C05_py_alloc_gis_Catchment_delineate_boundary :
+  py_allocs "gis" "Catchment.delineate_boundary" "delineate_boundary" = [[
+   ("buf",
+    "buf:=-1*np.ones(nval) ; nval:=np.int64(len(cells_area)) ; cells_area:=self._idxcells_area_filled");
+   ("catchment_area_mask",
+    "catchment_area_mask:=np.zeros(nrows*ncols) ; ncols:=self._flowdir.ncols ; nrows:=self._flowdir.nrows");
+   ("idxcells_boundary",
+    "idxcells_boundary:=-1*np.ones(nval) ; nval:=np.int64(len(cells_area)) ; cells_area:=self._idxcells_area_filled")]].
+Proof. vm_compute. reflexivity. Qed.
+
+Example C05_py_alloc_gis_Catchment_delineate_boundary_exclude_zero_area_boundary :
+  py_allocs "gis" "Catchment.delineate_boundary" "exclude_zero_area_boundary" = [[
+   ("idxok",
+    "idxok:=np.zeros(nrows) ; nrows:=self._flowdir.nrows ; nrows:=len(xy) ; xy:=self._flowdir.cell2coord(idxcells_boundary) ; idxcells_boundary:=-1*np.ones(nval) ; nval:=np.int64(len(cells_area)) ; cells_area:=self._idxcells_area_filled ; idxcells_boundary:=idxcells_boundary[idx] ; idx:=idxcells_boundary>=0")]].
+Proof. vm_compute. reflexivity. Qed.
+
+Example C05_py_alloc_gis_Catchment_compute_flowpathlengths_delineate_flowpathlengths_in_catchment :
+  py_allocs "gis" "Catchment.compute_flowpathlengths" "delineate_flowpathlengths_in_catchment" = [[
+   ("flowpaths",
+    "flowpaths:=np.zeros((nval,3)) ; nval:=np.int64(len(idxcells_area)) ; idxcells_area:=self.idxcells_area")]].
+Proof. vm_compute. reflexivity. Qed.
+
+(* c_intersect: one slot per cell of the second grid in idxcells and weights, nrows and ncols being
+   the ones passed to the kernel (hypotheses `Zlen idxcells = nrows * ncols`, `Zlen weights = nrows *
+   ncols` of C05_intersect_safe; not asserted by the wrapper) *)
+Example C05_py_alloc_gis_Catchment_intersect :
+  py_allocs "gis" "Catchment.intersect" "intersect" = [[
+   ("npoints",
+    "npoints:=np.zeros((1,))");
+   ("idxcells",
+    "idxcells:=np.zeros(nrows*ncols) ; (xll,yll,csz,nrows,ncols):=grid._getsize()");
+   ("weights",
+    "weights:=np.zeros(nrows*ncols) ; (xll,yll,csz,nrows,ncols):=grid._getsize()")]].
+Proof. vm_compute. reflexivity. Qed.
+
+Example C05_py_alloc_gis_delineate_river :
+  py_allocs "gis" "delineate_river" "delineate_river" = [[
+   ("npoints",
+    "npoints:=np.zeros((1,))");
+   ("idxcells",
+    "idxcells:=-1*np.ones(nval)");
+   ("data",
+    "data:=np.zeros((nval,5))")]].
+Proof. vm_compute. reflexivity. Qed.
+
+Example C05_py_alloc_gis_accumulate :
+  py_allocs "gis" "accumulate" "accumulate" = [[
+   ("to_accumulate.data",
+    "to_accumulate:=flowdir.clone()");
+   ("accumulation.data",
+    "accumulation:=to_accumulate.clone() ; to_accumulate:=flowdir.clone()")]].
+Proof. vm_compute. reflexivity. Qed.
+
+Example C05_py_alloc_gis_voronoi :
+  py_allocs "gis" "voronoi" "voronoi" = [[
+   ("weights",
+    "weights:=np.zeros(xypoints.shape[0]) ; xypoints:=np.atleast_2d(xypoints)")]].
+Proof. vm_compute. reflexivity. Qed.
+
+Example C05_py_alloc_gis_slope :
+  py_allocs "gis" "slope" "slope" = [[
+   ("slopeval.data",
+    "slopeval:=altitude.clone()")]].
+Proof. vm_compute. reflexivity. Qed.
+
+Example C05_py_alloc_gis_points_inside_polygon :
+  py_allocs "gis" "points_inside_polygon" "points_inside_polygon" = [[
+   ("inside",
+    "inside:=np.zeros(len(points)) ; points:=points")]].
+Proof. vm_compute. reflexivity. Qed.
+
+Close Scope string_scope.
+
 (* ================================================================== *)
 (* SAFE EXECUTION OF THE REGENERATED PROGRAM.  [program] is the MiniC    *)
 (* translation of the C kernels produced from the tree under test on     *)
